@@ -22,6 +22,7 @@ impl = childlib.boot()
 
 import operator
 import random
+import sys
 
 from zope.interface.declarations import Implements, implementedBy
 from zope.interface.interface import InterfaceClass
@@ -72,9 +73,20 @@ def make_nomod(name):
 keep = []          # classes behind the Implements, junk
 
 
+made = [0]
+
+
 def make(o):
     kind = o['kind']
     name, module = s(o['name']), s(o['module'])
+    # equal strings are not always the same object: alternate between
+    # interned names (what a class statement or a literal gives) and fresh
+    # string objects (what join / decoding / unpickling give)
+    made[0] += 1
+    if made[0] % 2:
+        name, module = sys.intern(name), sys.intern(module)
+    else:
+        name, module = ''.join(list(name)), ''.join(list(module))
     if kind == 'iface':
         return InterfaceClass(name, __module__=module)
     if kind == 'impl':
